@@ -46,8 +46,19 @@ def main():
         # the model side cannot run: a broken obligation, never silently green
         ctx.oblige('lean driver', False, 'build', str(e))
         return core.finish(ctx, mod)
-    except Exception:
+    except Exception as e:
         traceback.print_exc()
+        # An exception that escapes from the code under test on an input every generator of this check expects it to
+        # accept (on the unchanged tree none does) is an answer the model does not give: a broken correspondence, to
+        # be reported, not an internal error of the check.  Anything raised by the harness itself stays exit 2.
+        tb = traceback.extract_tb(e.__traceback__)
+        tree = os.path.realpath(os.environ.get('PYDL_REPO', '/repo')) + os.sep
+        if tb and os.path.realpath(tb[-1].filename).startswith(tree) and any('harness/props' in f.filename for f in tb):
+            frames = ['%s:%d %s' % (f.filename, f.lineno, f.name) for f in tb[-4:]]
+            ctx.disagree('uncaught-exception', {'stream': 'uncaught-exception', 'where': frames},
+                         'raised %s: %s' % (type(e).__name__, str(e)[:300]),
+                         'the model gives a value on every generated case of this stream (no exception on the unchanged tree)')
+            return core.finish(ctx, mod)
         return 2
     finally:
         ctx.cleanup()
